@@ -6,4 +6,8 @@ export GOFLAGS=-mod=mod GOPROXY=off GOSUMDB=off GOTOOLCHAIN=local
 cp /repo/go.sum mc/go.sum
 mkdir -p .build evidence replays
 (cd mc && go build -tags verif -o ../.build/mc ./cmd/mc)
+OV=$(mktemp -d /tmp/verif-setup-XXXXXX)
+trap 'rm -rf "$OV"' EXIT
+(cd mc && go run ./cmd/instr -repo /repo -out "$OV" && go build -tags verif -overlay "$OV/overlay.json" -o ../.build/mc-sched ./cmd/mc)
+(cd mc && go build -tags verif -race -o ../.build/mc-race ./cmd/mc)
 echo setup ok
